@@ -451,6 +451,33 @@ def fam_forconv(tier, rng):
     return out
 
 
+def fam_truth(tier, rng):
+    """a condition is true when it is not zero: 1, 2, -2, 5 count like -1 in IF, WHILE, DO WHILE / UNTIL and LOOP WHILE / UNTIL"""
+    out = []
+    for t in ("I", "L", "S", "D"):
+        for v in (0, 1, 2, -1, -2, 5):
+            for host in ("if", "while", "dowhile", "dountil", "loopwhile", "loopuntil"):
+                b = B()
+                c, n = var("C", t), var("N", "I")
+                inc = b.let(n, bin_("+", n, lit("I", 1)))
+                if host == "if":
+                    main = [b.let(c, num(v)), b.if_([(c, [b.print(lit("$", "t"))])], [b.print(lit("$", "f"))])]
+                elif host in ("while", "dowhile"):
+                    body = [inc, b.let(c, lit("I", 0))]
+                    main = [b.let(c, num(v)), b.while_(c, body) if host == "while" else b.do("top", "while", c, body)]
+                elif host == "dountil":
+                    main = [b.let(c, num(v)), b.do("top", "until", c, [inc, b.let(c, lit("I", 7))])]
+                elif host == "loopwhile":
+                    body = [inc, b.if_([(bin_("=", n, lit("I", 1)), [b.let(c, num(v))])], [b.let(c, lit("I", 0))])]
+                    main = [b.do("bot", "while", c, body)]
+                else:
+                    body = [inc, b.if_([(bin_("=", n, lit("I", 1)), [b.let(c, num(v))])], [b.let(c, lit("I", 7))])]
+                    main = [b.do("bot", "until", c, body)]
+                main.append(b.print(lit("$", "n"), n, c))
+                out.append({"fam": "truth:%s/%s" % (host, t), "prog": prog(main)})
+    return out
+
+
 def fam_condfrac(tier, rng):
     """a condition that is a number strictly between -1 and 1 (or any other non-zero fraction) is TRUE"""
     out = []
@@ -477,7 +504,7 @@ def fam_condfrac(tier, rng):
     return out
 
 
-FAMILIES = [fam_condfrac, fam_elseif, fam_forconv, fam_nest, fam_expr, fam_for, fam_select, fam_data, fam_err, fam_random]
+FAMILIES = [fam_condfrac, fam_truth, fam_elseif, fam_forconv, fam_nest, fam_expr, fam_for, fam_select, fam_data, fam_err, fam_random]
 
 
 def cases(tier, seed):
